@@ -179,6 +179,8 @@ def _materialize(case: Case, root: str):
             f.write(text)
         written.append(p)
     for d in case.incdirs:
+        if d.startswith('='):
+            continue            # passed literally on the command line (a spelling relative to the working directory)
         p = os.path.join(work, d)
         if not os.path.isdir(p):
             os.makedirs(p)
@@ -263,7 +265,7 @@ def run_inproc(case: Case, timeout: float = 10.0, tracer=None) -> Outcome:
     root = scratch_dir()
     work, asm, cfg, out, pp = _materialize(case, root)
     reset_globals()
-    incs = tuple(os.path.join(work, d) for d in case.incdirs)
+    incs = tuple(d[1:] if d.startswith('=') else os.path.join(work, d) for d in case.incdirs)
     old_stdout, old_stderr = sys.stdout, sys.stderr
     buf = io.StringIO()
     sys.stdout = buf
@@ -319,7 +321,7 @@ def cli_argv(case: Case, work, asm, cfg, out, pp):
     if case.pretty:
         argv += ['-p', '-t', case.pretty, '--pretty-print-output', pp]
     for d in case.incdirs:
-        argv += ['-I', os.path.join(work, d)]
+        argv += ['-I', d[1:] if d.startswith('=') else os.path.join(work, d)]
     for s in case.defines:
         argv += ['-D', s]
     return argv
